@@ -34,11 +34,16 @@ Member(n) == IF MemberRule = "stemcsv" THEN <<n.stem, ".csv">> ELSE <<n.stem, n.
 Init == /\ fs = [p \in {} |-> 0] /\ arch = [m \in {} |-> 0] /\ last = [op |-> "none"] /\ ndoc = 0 /\ hist = <<>>
 Exists(p) == p \in DOMAIN fs
 Put(f, k, v) == [x \in (DOMAIN f) \cup {k} |-> IF x = k THEN v ELSE f[x]]
-\* the contract speaks about one document per name: a file write is "fresh" when no earlier file write used the
-\* same directory and stem (the same stem with another extension or mode shares storage slots: outside the
-\* property).  Members of the caller's archive are addressed by their exact path - an accepted archive write is
-\* always fresh, whatever other members (d/a.csv next to a.csv) or files exist.
-FreshIn(h, n, mode) == mode = "archive" \/ \A k \in 1..Len(h) : (h[k][1] = "write" /\ h[k][3] # "archive") => (h[k][2].dir # n.dir \/ h[k][2].stem # n.stem)
+\* The contract: what was just written under a name and mode is what a read of that name and mode returns, whatever was
+\* written before, as long as the documented resolution of read_csv (the file named exactly as given first, then
+\* stem.gz, stem.zip, stem.csv) reaches it:
+\*   - a plain write creates the file named exactly as given: always reached;
+\*   - a compressed write creates stem.zip: reached unless an earlier plain write left a file with exactly the given
+\*     name (which read_csv prefers - a limitation of the naming scheme, outside the property);
+\*   - members of the caller's archive are addressed by their exact path: an accepted archive write is always reached.
+FreshIn(h, n, mode) == \/ mode \in {"archive", "plain"}
+                       \/ n.ext = ".zip"
+                       \/ \A k \in 1..Len(h) : ~(h[k][1] = "write" /\ h[k][3] = "plain" /\ h[k][2] = n)
 Fresh(n, mode) == FreshIn(hist, n, mode)
 Write(n, mode) ==
    /\ Len(hist) < MaxDepth /\ ndoc < 3
